@@ -260,7 +260,7 @@ func runOnce(c *Case, order []int, opts ...z.ExecOption) (evs []Event, ret Ret) 
 	cleanup := func() {}
 	defer func() { cleanup() }()
 	if c.Mode == "parse" {
-		initDest(destPtr.Elem(), c.Schema, c.Pre == 1)
+		initDest(destPtr.Elem(), c.Schema, c.Pre)
 		if c.Fe == "map" || c.Fe == "json" {
 			data = frontEndData(c)
 		} else {
@@ -388,7 +388,12 @@ func runOnce(c *Case, order []int, opts ...z.ExecOption) (evs []Event, ret Ret) 
 	// C19: Parse never modifies the maps, slices and structs it is given
 	ret.InOK = true
 	if c.Mode == "parse" && c.Fe == "map" {
-		ret.InOK = reflect.DeepEqual(data, concInput(c.Input, c.Schema, c.Fe))
+		want := concInput(c.Input, c.Schema, c.Fe)
+		ret.InOK = reflect.DeepEqual(data, want)
+		if !ret.InOK && strings.Contains(fmt.Sprint(want), "NaN") {
+			// NaN is not DeepEqual to itself: both sides are printed instead (fmt sorts map keys)
+			ret.InOK = fmt.Sprint(data) == fmt.Sprint(want)
+		}
 	}
 	// observed root-level visit order
 	depth0 := []string{}
